@@ -149,6 +149,22 @@ class C14Bounded(Bounded):
             outx = outx[0] if isinstance(outx, list) and len(outx) == 1 else outx
             if idsx != ["i7", "ph7", "i8", "ph8", "i9", "ph9"] or outx != want:
                 fail(f"derived backend {Bx.__name__} {kw}: items {idsx}, output {outx!r} (expected the stages of the backend it derives from: {want!r})", [Bx.__name__, sorted(kw)])
+        # no user pipeline is the empty user pipeline: the backend and output-format stages run completely (transformations, post-processing
+        # of every query, finalizers), whether the backend was created with None, nothing, or an empty pipeline
+        exp_q0 = 'p9_p7_f1="v1" and p9_p7_f2="val9"'
+        for k in (7, 9):
+            exp_q0 = f"[{k}{exp_q0}{k}]"
+        want0 = f"<9(<7({exp_q0}|7|{exp_q0}))"
+        for label, mkb in (("no argument", lambda: B()), ("None", lambda: B(None)), ("an empty pipeline", lambda: B(ProcessingPipeline())), ("derived, None", lambda: B1b(None))):
+            ev += 1
+            nontriv += 1
+            try:
+                out0 = mkb().convert(SigmaCollection.from_yaml(RULE + "---" + RULE.replace("title: t", "title: u")))
+                out0 = out0[0] if isinstance(out0, list) and len(out0) == 1 else out0
+            except Exception as e:
+                out0 = f"{type(e).__name__}: {e}"
+            if out0 != want0:
+                fail(f"backend with backend and output-format pipelines created with {label} as user pipeline: output {out0!r}, expected {want0!r} (the stages of the two remaining pipelines, nothing skipped)", ["no user pipeline", label])
         # the stage order backend, user, output format does not depend on the priorities of the three pipelines (priority orders the
         # pipelines given to the resolver, i.e. inside the user stage)
         for pb, pu, pf in itertools.product((-5, 0, 10), repeat=3):
